@@ -460,6 +460,46 @@ pub fn run(tier: Tier) -> i32 {
         Ok(Some(d)) => acc.violation(Violation { sig: "history/empty".into(), what: format!("empty builder: {d}"), case: json!({"kind": "history", "calls": []}), size: 0 }),
         Err(m) => acc.machinery(m),
     }
+    // moderate size: 30 rules, 30 functions and 30 symbols registered one by one and in batches;
+    // everything must be present, in order, invocable, latest symbol value wins
+    {
+        acc.count("executions", 1);
+        let names: Vec<&'static str> = (0..30).map(|i| &*Box::leak(format!("fn_{i}").into_boxed_str())).collect();
+        let build = || -> Result<RuleSet, String> {
+            let mut b = ruleset();
+            for i in 0..15 {
+                b = b.with_rule(Rule::new(format!("rule{i}"), BTreeMap::new(), Expr::Vec(vec![Expr::func(names[i], Expr::value(Value::Int(0))), Expr::symbol(format!("sym{i}"))]))).map_err(|e| e.to_string())?;
+                b = b.with_function(func(names[i], 1000 + i as i128)).map_err(|e| e.to_string())?;
+                b = b.with_symbol(format!("sym{i}"), Value::Int(-1));
+            }
+            b = b
+                .with_rules((15..30).map(|i| Rule::new(format!("rule{i}"), BTreeMap::new(), Expr::Vec(vec![Expr::func(names[i], Expr::value(Value::Int(0))), Expr::symbol(format!("sym{i}"))]))).collect::<Vec<_>>())
+                .map_err(|e| e.to_string())?;
+            b = b
+                .with_functions((15..30).map(|i| Box::new(func(names[i], 1000 + i as i128)) as Box<dyn UserFunction + Send + Sync + 'static>).collect::<Vec<_>>())
+                .map_err(|e| e.to_string())?;
+            let mut syms = Symbols::default();
+            for i in 0..30 {
+                syms.insert(format!("sym{i}"), Value::Int(i as i128));
+            }
+            b = b.with_symbols(syms).map_err(|e| e.to_string())?;
+            Ok(b.build())
+        };
+        match catch(build) {
+            Ok(Ok(rs)) => match catch(|| block_on(rs.evaluate_value(&Value::None))) {
+                Ok(Ok(Ok(out))) => {
+                    let got: Vec<(String, String)> = out.iter().map(|o| (o.rule.name().to_string(), format!("{:?}", o.value.as_ref().map(|v| RV::from_value(v).show()).map_err(|e| e.to_string())))).collect();
+                    let want: Vec<(String, String)> = (0..30).map(|i| (format!("rule{i}"), format!("Ok(\"[i{}, i{}]\")", 1000 + i, i))).collect();
+                    if got != want {
+                        acc.violation(Violation { sig: "wide-builder".into(), what: format!("30 rules / functions / symbols: outcomes {got:?}"), case: json!({"kind": "wide"}), size: 30 });
+                    }
+                    acc.outcome("wide-builder");
+                }
+                other => acc.violation(Violation { sig: "wide-builder/evaluate".into(), what: format!("evaluating the 30-rule ruleset failed: {:?}", other.map(|r| r.map(|x| x.map(|o| o.len()).map_err(|e| e.to_string())))), case: json!({"kind": "wide"}), size: 30 }),
+            },
+            other => acc.violation(Violation { sig: "wide-builder/build".into(), what: format!("building 30 rules / functions / symbols failed: {:?}", other.map(|r| r.map(|_| ()))), case: json!({"kind": "wide"}), size: 30 }),
+        }
+    }
     let n_names = check_names(&mut acc, tier);
     acc.sample("history", 1, || json!({"calls": ["with_symbol(s, i11)", "with_symbols({s: i17, t: i18, u: i19})", "with_function(f)", "with_rules([C#6, C#7]) -> refused"]}));
     acc.sample("name", 1, || json!({"candidates": ["_-", "if", "date_time", "é1", "1a", ""]}));
